@@ -6,4 +6,19 @@ export GOFLAGS=-mod=mod GOPROXY=off GOSUMDB=off GOTOOLCHAIN=local
 if [ ! -x bin/vcheck ]; then
   (cd engine && go build -o /verif/bin/vcheck ./cmd/vcheck) || exit 2
 fi
-exec bin/vcheck run -prop "$1" -tier "${2:-${VERIF_TIER:-quick}}"
+tier="${2:-${VERIF_TIER:-quick}}"
+# Thorough tier of the two cheap unit-level checks: every obligation is asked a
+# second time of an independent solver build (z3 5.1.0, "z3-new") before the
+# registered z3 4.8.12 run; a disagreement (violation or machinery error in
+# either run) fails the check. The second run's outcome is recorded in evidence.
+case "$tier:$1" in
+thorough:C16|thorough:C02)
+  if command -v z3-new >/dev/null 2>&1; then
+    out=$(bin/vcheck run -prop "$1" -tier "$tier" -solver z3-new 2>&1); rc=$?
+    echo "$out" | sed 's/^/[z3-new] /'
+    if [ $rc -ne 0 ]; then echo "$out" | grep '^VIOLATION'; exit $rc; fi
+    VERIF_CROSS="z3-new (5.1.0) re-asked all obligations first: $(echo "$out" | grep "^$1 $tier:" | tail -1)"
+    export VERIF_CROSS
+  fi ;;
+esac
+exec bin/vcheck run -prop "$1" -tier "$tier"
